@@ -18,6 +18,9 @@
  *     the object is absent; the abort code of a refused write to 1003h:0
  *   - SDO traffic in STOPPED (events disabled); the verdict of the 1014h writes (model adopts a confirmed value)
  * Build with --defs CO_EMCY_N=8 (the table always has CO_EMCY_N rows).
+ * Macro-step (history depth 8 only, --opt burst=0/1): "burst" = clr a, set a, clr a, set a+usr, clr b, set b - three
+ * activations whatever the state is, every sub-step judged - so that the ring of depth 8 wraps inside the depth bound.
+ * Configuration 11 leaves the node in INIT (no CONodeStart): API events only plus "node-start()".
  * Options: --opt nerr=K (only the first K table errors in the alphabet), --opt big=0 (no out-of-range index),
  *          --opt id=0 (no 1014h writes), --opt nmt=0 (no NMT commands), --opt query=0 (no pure query events). */
 #include <stdio.h>
@@ -48,11 +51,12 @@ static CO_TMR_MEM  TMem[4];
 static CO_EMCY_TBL Tbl[CO_EMCY_N];
 
 /* ---- configurations ---- */
-typedef struct { uint8_t tab, hd, id_off; } Cfg;
+typedef struct { uint8_t tab, hd, id_off, init; } Cfg;
 static const Cfg CFGS[] = {
-    { 0, 0, 0 }, { 0, 1, 0 }, { 0, 2, 0 }, { 0, 3, 0 }, { 0, 8, 0 },
-    { 1, 0, 0 }, { 1, 1, 0 }, { 1, 2, 0 }, { 1, 3, 0 }, { 1, 8, 0 },
-    { 0, 2, 1 },                                                 /* 1014h initially disabled, enabled on another CAN-ID */
+    { 0, 0, 0, 0 }, { 0, 1, 0, 0 }, { 0, 2, 0, 0 }, { 0, 3, 0, 0 }, { 0, 8, 0, 0 },
+    { 1, 0, 0, 0 }, { 1, 1, 0, 0 }, { 1, 2, 0, 0 }, { 1, 3, 0, 0 }, { 1, 8, 0, 0 },
+    { 0, 2, 1, 0 },                                              /* 1014h initially disabled, enabled on another CAN-ID */
+    { 0, 2, 0, 1 },                                              /* node initialised but not started: NMT state INIT (API events only) */
 };
 #define NCFG ((int)(sizeof CFGS / sizeof CFGS[0]))
 static const uint8_t  CLASSES[2][NTAB] = { { 0, 1, 1, 2, 7 }, { 1, 1, 1, 1, 1 } };
@@ -63,8 +67,8 @@ static uint32_t ENABLE_ID;                                       /* value the "e
 static const char *cfg_name(int c)
 {
     static char b[96];
-    snprintf(b, sizeof b, "classes=%s hist=%d emcy_n=%d%s", CFGS[c].tab ? "1,1,1,1,1" : "0,1,1,2,7", CFGS[c].hd, (int)CO_EMCY_N,
-             CFGS[c].id_off ? " 1014h-initially-disabled" : "");
+    snprintf(b, sizeof b, "classes=%s hist=%d emcy_n=%d%s%s", CFGS[c].tab ? "1,1,1,1,1" : "0,1,1,2,7", CFGS[c].hd, (int)CO_EMCY_N,
+             CFGS[c].id_off ? " 1014h-initially-disabled" : "", CFGS[c].init ? " nmt-init" : "");
     return b;
 }
 
@@ -115,7 +119,7 @@ typedef struct {
 } Expect;
 
 /* ---- alphabet ---- */
-enum { EV_SET, EV_CLR, EV_RESET, EV_HWR, EV_HRD, EV_RRD, EV_GET, EV_CNT, EV_NMT, EV_ID };
+enum { EV_SET, EV_CLR, EV_RESET, EV_HWR, EV_HRD, EV_RRD, EV_GET, EV_CNT, EV_NMT, EV_ID, EV_BURST, EV_START };
 typedef struct { uint8_t kind, a, b; } Ev;
 static Ev  EVS[80];
 static int NEV;
@@ -123,7 +127,7 @@ static void ev_add(int kind, int a, int b) { EVS[NEV].kind = (uint8_t)kind; EVS[
 
 static const char *ev_name(int e)
 {
-    static char b[64];
+    static char b[96];
     const Ev *E = &EVS[e];
     switch (E->kind) {
     case EV_SET:   snprintf(b, sizeof b, "set(err=%d,usr=%s)", E->a, E->b ? "pattern" : "none"); break;
@@ -135,6 +139,8 @@ static const char *ev_name(int e)
     case EV_GET:   snprintf(b, sizeof b, "get(err=%d)", E->a); break;
     case EV_CNT:   snprintf(b, sizeof b, "cnt()"); break;
     case EV_NMT:   snprintf(b, sizeof b, "nmt(%s)", E->a == 1 ? "start" : E->a == 2 ? "stop" : "pre-op"); break;
+    case EV_START: snprintf(b, sizeof b, "node-start()"); break;
+    case EV_BURST: snprintf(b, sizeof b, "burst(clr %d,set %d,clr %d,set %d+usr,clr %d,set %d)", E->a, E->a, E->a, E->a, E->b, E->b); break;
     default:       snprintf(b, sizeof b, "sdo-write(1014h:00,%s)", E->a ? "enable" : "disable"); break;
     }
     return b;
@@ -159,10 +165,11 @@ static void c15_prehash(int phase)
 static int build(int cfg)
 {
     OdB b; CO_NODE_SPEC spec; CO_ERR err; uint32_t id = 0;
-    int nerr = mc_opt("nerr", NTAB), big = mc_opt("big", 1), idev = mc_opt("id", 1), nmtev = mc_opt("nmt", 1), query = mc_opt("query", 1);
+    int nerr = mc_opt("nerr", NTAB), big = mc_opt("big", 1), idev = mc_opt("id", 1), nmtev = mc_opt("nmt", 1), query = mc_opt("query", 1), burst;
     if (nerr < 1) nerr = 1;
     if (nerr > NTAB) nerr = NTAB;
     C = CFGS[cfg];
+    burst = mc_opt("burst", C.hd > 3);                            /* macro-step: three activations at once, so that a deep ring wraps within the depth bound */
     w_reset(1000);
     ASAN_UNPOISON_MEMORY_REGION(Hist, sizeof Hist);
     memset(&Node, 0, sizeof Node); memset(OD, 0, sizeof OD); memset(Hist, 0, sizeof Hist); memset(SdoBuf, 0, sizeof SdoBuf);
@@ -190,13 +197,13 @@ static int build(int cfg)
     CONodeInit(&Node, &spec);
     err = CONodeGetErr(&Node);
     if (err != CO_ERR_NONE) { fprintf(stderr, "c15: node initialisation failed with error %d\n", (int)err); exit(2); }
-    CONodeStart(&Node);
+    if (!C.init) CONodeStart(&Node);
     (void)CONodeGetErr(&Node);
 
     M.nmt = (uint8_t)CONmtGetMode(&Node.Nmt);
     M.cobid = (C.id_off ? ID_OFF : 0u) | (0x80u + NODEID);
     (void)CODictRdLong(&Node.Dict, CO_DEV(0x1014, 0), &id);
-    if (id != M.cobid || M.nmt != CO_PREOP) { fprintf(stderr, "c15: unexpected start state (1014h=%08X, mode %d)\n", id, M.nmt); exit(2); }
+    if (id != M.cobid || M.nmt != (C.init ? CO_INIT : CO_PREOP)) { fprintf(stderr, "c15: unexpected start state (1014h=%08X, mode %d)\n", id, M.nmt); exit(2); }
     (void)CONodeGetErr(&Node);
 
     /* unused history cells are poisoned: a ring that runs past the configured depth is a memory error */
@@ -214,6 +221,12 @@ static int build(int cfg)
     for (int e = 0; e < nerr; e++) ev_add(EV_CLR, e, 0);
     if (big) ev_add(EV_CLR, BIGIDX, 0);
     ev_add(EV_RESET, 0, 0); ev_add(EV_RESET, 1, 0);
+    if (burst) ev_add(EV_BURST, 0, nerr > 1 ? 1 : 0);
+    if (C.init) {                                                 /* no communication in INIT: API events only */
+        if (query) { for (int e = 0; e < nerr; e++) ev_add(EV_GET, e, 0); if (big) ev_add(EV_GET, BIGIDX, 0); ev_add(EV_CNT, 0, 0); }
+        ev_add(EV_START, 0, 0);
+        return NEV;
+    }
     ev_add(EV_HWR, 0, 0); ev_add(EV_HWR, 1, 0);
     if (query) {
         for (int n = 0; n <= C.hd + 1; n++) ev_add(EV_HRD, n, 0);
@@ -263,10 +276,10 @@ static uint32_t ans_value(const SdoAns *a, int want_len)
 }
 
 /* ---- comparison of the EMCY frames of the step ---- */
-static void check_frames(const Expect *x, const char *what)
+static void check_frames(const Expect *x, int first, const char *what)
 {
     WFrame f[16]; int n = 0; char fr[64] = "-";
-    for (int i = 0; i < OBS.ntx && i < W_MAX_TX; i++) if (OBS.tx[i].id != SDO_TXID) { if (n < 16) f[n] = OBS.tx[i]; n++; }
+    for (int i = first; i < OBS.ntx && i < W_MAX_TX; i++) if (OBS.tx[i].id != SDO_TXID) { if (n < 16) f[n] = OBS.tx[i]; n++; }
     if (n > 0) w_fmt_frame(fr, sizeof fr, &f[0]);
     if (n > x->n) {
         mc_fail("emcy-frame-unexpected", "%s: %d frame(s) sent, %d expected (first %s; 1014h=%08X, NMT mode %d, active after the step: %s)",
@@ -328,46 +341,64 @@ static void check_state(void)
 
 static int slot_of(int err) { return err < NTAB ? err : SLOT_LAST; }
 
+static void do_set(int err, int withusr, const char *what)
+{
+    CO_EMCY_USR usr = { 0xABCD, { 1, 2, 3, 4, 5 } };
+    Expect x; int first = OBS.ntx;
+    int s = slot_of(err), apply = 1;
+    int16_t before = COEmcyGet(&Node.Emcy, MT[s].idx);
+    memset(&x, 0, sizeof x);
+    COEmcySet(&Node.Emcy, (uint8_t)err, withusr ? &usr : 0);
+    if (err >= CO_EMCY_N) {                                       /* not defined by the statement: ignored or last row */
+        int16_t after = COEmcyGet(&Node.Emcy, MT[s].idx);
+        apply = (before == 0 && after == 1) || OBS.ntx > first;
+        mc_log("    out-of-range index %d: implementation %s\n", err, apply ? "used the last table row" : "changed nothing");
+    }
+    if (apply && !M.active[s]) {
+        M.active[s] = 1;
+        m_hist_push((uint32_t)MT[s].code | (withusr ? 0xABCD0000u : 0u));
+        if (m_may_send()) { x.n = 1; x.code = MT[s].code; x.reg = m_reg_of(m_mask()); x.usr = (uint8_t)withusr; }
+    }
+    check_frames(&x, first, what);
+}
+
+static void do_clr(int err, const char *what)
+{
+    Expect x; int first = OBS.ntx;
+    int s = slot_of(err), apply = 1;
+    int16_t before = COEmcyGet(&Node.Emcy, MT[s].idx);
+    memset(&x, 0, sizeof x);
+    COEmcyClr(&Node.Emcy, (uint8_t)err);
+    if (err >= CO_EMCY_N) {
+        int16_t after = COEmcyGet(&Node.Emcy, MT[s].idx);
+        apply = (before == 1 && after == 0) || OBS.ntx > first;
+        mc_log("    out-of-range index %d: implementation %s\n", err, apply ? "used the last table row" : "changed nothing");
+    }
+    if (apply && M.active[s]) {
+        M.active[s] = 0;
+        if (m_may_send()) { x.n = 1; x.code = 0; x.reg = m_reg_of(m_mask()); x.usr = 0; }
+    }
+    check_frames(&x, first, what);
+}
+
 static int step(int ev)
 {
     const Ev *E = &EVS[ev];
-    Expect x; SdoAns a; char what[64];
+    Expect x; SdoAns a; char what[96];
     memset(&x, 0, sizeof x);
     snprintf(what, sizeof what, "%s", ev_name(ev));
 
     switch (E->kind) {
-    case EV_SET: {
-        CO_EMCY_USR usr = { 0xABCD, { 1, 2, 3, 4, 5 } };
-        int s = slot_of(E->a), apply = 1;
-        int16_t before = COEmcyGet(&Node.Emcy, MT[s].idx);
-        COEmcySet(&Node.Emcy, E->a, E->b ? &usr : 0);
-        if (E->a >= CO_EMCY_N) {                                  /* not defined by the statement: ignored or last row */
-            int16_t after = COEmcyGet(&Node.Emcy, MT[s].idx);
-            apply = (before == 0 && after == 1) || OBS.ntx > 0;
-            mc_log("    out-of-range index %d: implementation %s\n", E->a, apply ? "used the last table row" : "changed nothing");
-        }
-        if (apply && !M.active[s]) {
-            M.active[s] = 1;
-            m_hist_push((uint32_t)MT[s].code | (E->b ? 0xABCD0000u : 0u));
-            if (m_may_send()) { x.n = 1; x.code = MT[s].code; x.reg = m_reg_of(m_mask()); x.usr = E->b; }
-        }
-        check_frames(&x, what);
-        break; }
-    case EV_CLR: {
-        int s = slot_of(E->a), apply = 1;
-        int16_t before = COEmcyGet(&Node.Emcy, MT[s].idx);
-        COEmcyClr(&Node.Emcy, E->a);
-        if (E->a >= CO_EMCY_N) {
-            int16_t after = COEmcyGet(&Node.Emcy, MT[s].idx);
-            apply = (before == 1 && after == 0) || OBS.ntx > 0;
-            mc_log("    out-of-range index %d: implementation %s\n", E->a, apply ? "used the last table row" : "changed nothing");
-        }
-        if (apply && M.active[s]) {
-            M.active[s] = 0;
-            if (m_may_send()) { x.n = 1; x.code = 0; x.reg = m_reg_of(m_mask()); x.usr = 0; }
-        }
-        check_frames(&x, what);
-        break; }
+    case EV_SET: do_set(E->a, E->b, what); break;
+    case EV_CLR: do_clr(E->a, what); break;
+    case EV_BURST:                                                /* three activations whatever the state is; every sub-step is judged */
+        do_clr(E->a, what); check_state();
+        do_set(E->a, 0, what); check_state();
+        do_clr(E->a, what); check_state();
+        do_set(E->a, 1, what); check_state();
+        do_clr(E->b, what); check_state();
+        do_set(E->b, 0, what);
+        break;
     case EV_RESET: {
         unsigned pre = m_mask();
         COEmcyReset(&Node.Emcy, E->a);
@@ -377,12 +408,12 @@ static int step(int ev)
             for (unsigned r = 0; r < (1u << NSLOT); r++)          /* register while the errors r (a proper subset) are still active */
                 if ((r & ~pre) == 0 && r != pre) { uint8_t v = m_reg_of(r); x.allowed[v >> 3] |= (uint8_t)(1u << (v & 7)); }
         }
-        check_frames(&x, what);
+        check_frames(&x, 0, what);
         break; }
     case EV_HWR:
         if (!m_sdo_ok()) return MC_SKIP;
         sdo_xfer(0x2F, 0x1003, 0, E->a, &a);
-        check_frames(&x, what);
+        check_frames(&x, 0, what);
         if (C.hd == 0) break;                                     /* object absent: verdict is C04's business */
         if (E->a == 0) {
             if (a.kind == R_DLOK) { M.nhist = 0; memset(M.hist, 0, sizeof M.hist); }
@@ -394,7 +425,7 @@ static int step(int ev)
     case EV_HRD:
         if (!m_sdo_ok()) return MC_SKIP;
         sdo_xfer(0x40, 0x1003, E->a, 0, &a);
-        check_frames(&x, what);
+        check_frames(&x, 0, what);
         if (C.hd == 0 || E->a > M.nhist) break;                   /* nothing stored there: 0, abort, ... all admissible */
         if (E->a == 0) {
             if (a.kind != R_UPLOAD || (a.len && a.len != 1) || ans_value(&a, 1) != M.nhist)
@@ -409,7 +440,7 @@ static int step(int ev)
         uint8_t reg = m_reg_of(m_mask());
         if (!m_sdo_ok()) return MC_SKIP;
         sdo_xfer(0x40, 0x1001, 0, 0, &a);
-        check_frames(&x, what);
+        check_frames(&x, 0, what);
         if (a.kind != R_UPLOAD || (a.len && a.len != 1) || ans_value(&a, 1) != reg)
             mc_fail("emcy-register", "SDO read of 1001h answers kind %d len %d value %08X abort %08X, expected %02X (active: %s)", a.kind, a.len, a.val, a.abort, reg, m_active_str());
         break; }
@@ -417,14 +448,16 @@ static int step(int ev)
         int s = slot_of(E->a);
         int16_t g = COEmcyGet(&Node.Emcy, E->a);
         mc_log("    COEmcyGet(%d) -> %d\n", E->a, g);
-        check_frames(&x, what);
+        w_cb(CB_USER, EV_GET, (uint32_t)g, 0);                    /* the return value is an observation of the step */
+        check_frames(&x, 0, what);
         if (E->a >= CO_EMCY_N) { if (g > 0 && g != M.active[s]) mc_fail("emcy-get", "COEmcyGet(%d) (out of range) returns %d while the last table row is %s", E->a, g, M.active[s] ? "active" : "inactive"); }
         else if (g != M.active[s]) mc_fail("emcy-get", "COEmcyGet(%d) returns %d, model says %d (active: %s)", E->a, g, M.active[s], m_active_str());
         break; }
     case EV_CNT: {
         int16_t c = COEmcyCnt(&Node.Emcy);
         mc_log("    COEmcyCnt() -> %d\n", c);
-        check_frames(&x, what);
+        w_cb(CB_USER, EV_CNT, (uint32_t)c, 0);
+        check_frames(&x, 0, what);
         if (c != m_cnt_of(m_mask())) mc_fail("emcy-count", "COEmcyCnt returns %d, %d error(s) are active (%s)", c, m_cnt_of(m_mask()), m_active_str());
         break; }
     case EV_NMT: {
@@ -432,15 +465,23 @@ static int step(int ev)
         w_rx(&Node, 0x000, 2, d);
         M.nmt = (uint8_t)CONmtGetMode(&Node.Nmt);                 /* the NMT machine itself is C09's subject: follow it */
         mc_log("    NMT command %d -> mode %d\n", E->a, M.nmt);
-        check_frames(&x, what);
+        check_frames(&x, 0, what);
         break; }
+    case EV_START:                                                /* INIT -> PRE-OPERATIONAL (boot-up message), only in the INIT configuration */
+        if (M.nmt != CO_INIT) return MC_SKIP;
+        CONodeStart(&Node);
+        M.nmt = (uint8_t)CONmtGetMode(&Node.Nmt);
+        mc_log("    CONodeStart -> mode %d\n", M.nmt);
+        for (int i = 0; i < OBS.ntx && i < W_MAX_TX; i++)
+            if (OBS.tx[i].id != 0x700u + NODEID) mc_fail("emcy-frame-unexpected", "node start sent a frame with identifier %03X", OBS.tx[i].id);
+        break;
     default: {                                                    /* EV_ID */
         uint32_t v = E->a ? ENABLE_ID : (M.cobid | ID_OFF);
         if (!m_sdo_ok()) return MC_SKIP;
         sdo_xfer(0x23, 0x1014, 0, v, &a);
         if (a.kind == R_DLOK) M.cobid = v;                        /* a refused write changes nothing; the verdict is not C15's subject */
         mc_log("    1014h <- %08X %s; model 1014h=%08X\n", v, a.kind == R_DLOK ? "confirmed" : "refused", M.cobid);
-        check_frames(&x, what);
+        check_frames(&x, 0, what);
         break; }
     }
 
